@@ -330,7 +330,10 @@ impl Shadow {
         let ob = &mut self.objs[o as usize];
         ob.strong -= n;
         if ob.strong < 0 {
-            sim().harness_error(&format!("shadow: strong tokens of #{} negative", o));
+            // every token was acquired from a library return value: more releases than acquisitions
+            // means the library handed out an owner that no count stands for
+            let det = format!("strong owners of #{} released more often than the library handed them out (an operation returned an owner that nothing paid for)", o);
+            sim().violation(&format!("C04{}", self.strong_extra), "owner-conjured", "owner-conjured/strong", &det);
         }
         if ob.strong == 0 {
             ob.ever_unowned = true;
@@ -349,7 +352,8 @@ impl Shadow {
         let ob = &mut self.objs[o as usize];
         ob.weak -= n;
         if ob.weak < 0 {
-            sim().harness_error(&format!("shadow: weak tokens of #{} negative", o));
+            let det = format!("weak owners of #{} released more often than the library handed them out (an operation returned an owner that nothing paid for)", o);
+            sim().violation(&format!("C04{}", self.weak_extra), "owner-conjured", "owner-conjured/weak", &det);
         }
     }
 
